@@ -252,7 +252,9 @@ func runLint(runner *Runner, rslv resolver.Resolver) error {
 	write(yellow, ":exclamation:%d warnings, ", result.Warnings)
 	writeln(cyan, ":speaker:%d recommendations.", result.Infos)
 
-	if result.Errors > 0 {
+	// In JSON mode Run reports a syntax error inside the result instead of returning it:
+	// no linted VCL means the main file or an included module failed to parse.
+	if result.Errors > 0 || result.Vcl == nil {
 		return ErrExit
 	}
 
